@@ -14,7 +14,7 @@
  "cbmc": ["--unwindset", "heapify.0:5,heapifyup.0:5"],
  "unwind": 9, "thorough_unwind": 17,
  "bounded": true, "bound": "heaps with <= 7 elements (quick) / <= 15 (thorough); all loops fully unwound",
- "timeout": 600,
+ "timeout": 600, "thorough_timeout": 3600,
  "assumptions": ["HP_MODEL=1: abstract user callbacks of harness/C13/hp_model.h; HP_MODEL=2: real struct timerrec, compar, setreccookie of timerqueue.c",
                  "slot k of the initial heap holds record object R[k]: symmetry reduction, sound for distinct elements because ptrheap.c never inspects element pointers (arbitrary layouts incl. duplicate pointers: groups *_any at 4 elements)",
                  "elasticarray.c is inlined (real code) with ghost bounds assertions (contracts/c13_elasticarray_bounds.spec); the pointer-list buffer is a heap object of constant capacity >= alloc, accesses are checked against the logical size, not the capacity",
@@ -26,7 +26,7 @@
 void
 h_ptrheap_getmin(void)
 {
-	IN(int, use_rc);
+	HP_USE_RC_DECL(use_rc);
 	HP_MK_LIST(H_l, n, use_rc);
 	HP_MK_COOKIE(ck);
 	HP_MK_HEAP(H, n, ck, use_rc);
